@@ -118,11 +118,30 @@ func (m *Machine) Step(op Op) error {
 	readOnly := false
 	var touched = -1
 	switch op.Kind {
-	case OpInsert, OpInsertNew, OpUpdate, OpInsertSame:
+	case OpInsert, OpInsertNew, OpUpdate, OpInsertSame, OpInsertMax, OpInsertMin:
 		var ki int
 		var ok = true
 		vn := op.V
 		switch op.Kind {
+		case OpInsertMax, OpInsertMin:
+			keys := t.Model.Keys()
+			ki, ok = -1, false
+			if op.Kind == OpInsertMax {
+				from := 0
+				if len(keys) > 0 {
+					from = keys[len(keys)-1] + 1
+				}
+				if c := from + op.K%3; c < poolLen {
+					ki, ok = c, true
+				} else if from < poolLen {
+					ki, ok = from, true
+				}
+			} else if len(keys) > 0 && keys[0] > 0 {
+				ki, ok = keys[0]-1-op.K%3, true
+				if ki < 0 {
+					ki = 0
+				}
+			}
 		case OpInsert:
 			ki = mod(m.sel(op), poolLen)
 		case OpInsertNew:
@@ -199,8 +218,13 @@ func (m *Machine) Step(op Op) error {
 		if err := m.mutated(si, t); err != nil {
 			return err
 		}
-	case OpDelete, OpDeleteTop:
+	case OpDelete, OpDeleteTop, OpDeleteMax, OpDeleteMin:
 		ki, ok := PresentKey(t.Model, m.sel(op))
+		if keys := t.Model.Keys(); ok && op.Kind == OpDeleteMax {
+			ki = keys[len(keys)-1]
+		} else if ok && op.Kind == OpDeleteMin {
+			ki = keys[0]
+		}
 		if !ok {
 			return ErrSkipped
 		}
